@@ -30,6 +30,7 @@ type rtCase struct {
 	Level      map[string]string   `json:"level"`      // fid -> level (default violation)
 	RangeStyle int                 `json:"rangeStyle"`
 	Stripped   bool                `json:"compareStripped"` // also validate the same graph without source maps
+	Messages   map[string]any      `json:"messages"`        // fid -> message value written in the profile (any YAML value)
 }
 
 type rtNode struct {
@@ -49,7 +50,7 @@ type rtObs struct {
 	GraphIDs    []string `json:"graphIds"`
 	Validations []string `json:"validations"`
 	// with compareStripped: the report of the graph without source maps equals this one minus its location nodes
-	StrippedEqual string `json:"strippedEqual,omitempty"` // "yes" | "no: ..." 
+	StrippedEqual string `json:"strippedEqual,omitempty"` // "yes" | "no: ..."
 }
 
 const smNS = "http://a.ml/vocabularies/document-source-maps#"
@@ -208,7 +209,9 @@ func runReportTree(c rtCase) (o rtObs) {
 	}
 	graph = withSourceMaps(graph, c)
 	data, _ := json.Marshal(graph)
+	logicMessages = c.Messages
 	prof := renderLogicProfileLevels(c.Formulas, c.Kinds, c.Spell, c.Level)
+	logicMessages = nil
 	for _, f := range c.Formulas {
 		o.Validations = append(o.Validations, f.FID)
 	}
